@@ -33,8 +33,8 @@ FirstAdm(u) == IF Units[u].adm = {} THEN 0
                ELSE CHOOSE p \in 1..NP : Prefixes[p].name \in Units[u].adm /\ \A q \in 1..(p - 1) : Prefixes[q].name \notin Units[u].adm
 TwoLetter(p) == p > 0 /\ Len(Prefixes[p].sym) > 1
 
-VARIABLE cs
-\* cs = [fam, u, p, kind, c, k]   (fam: "root" | "U" node | "UP" node | "L" leaf | "S" sys leaf | "N" number leaf)
+VARIABLE v_cs
+\* v_cs = [fam, u, p, kind, c, k]   (fam: "root" | "U" node | "UP" node | "L" leaf | "S" sys leaf | "N" number leaf)
 Node(fam, u, p, kind, c, k) == [fam |-> fam, u |-> u, p |-> p, kind |-> kind, c |-> c, k |-> k]
 
 Text(x) ==
@@ -68,8 +68,8 @@ Children(x) ==
                                THEN {Node("L", x.u, x.p, "exp", "", k) : k \in 1..Len(ExpForms)} ELSE {})
     [] OTHER -> {}
 
-Init == cs = Node("root", 0, 0, "", "", 0)
-Next == cs' \in Children(cs)
+Init == v_cs = Node("root", 0, 0, "", "", 0)
+Next == v_cs' \in Children(v_cs)
 
 IsLeaf(x) == x.fam \in {"L", "S", "N"}
 
@@ -79,17 +79,16 @@ Tags(x) ==
   \cup (IF x.fam = "N" THEN {"number"} ELSE AtomTextTags(Text(x)))
   \cup (IF x.fam \in {"L", "S"} /\ x.kind = "exp" THEN {"exponent"} ELSE {})
   \cup (IF x.fam = "S" THEN {"system_unit"} ELSE {})
-  \cup (IF x.fam = "L" /\ x.p > 0 /\ ~Admissible(x.p, x.u) THEN {"inadmissible_prefix"} ELSE {})
 
 
 \* design-level facts about the tables and the notation: a counterexample here is a statement about the
 \* published tables, not about the code
-Decodable == IsLeaf(cs) /\ cs.fam # "N" => LET sp == SymPart(Text(cs)) IN
+Decodable == IsLeaf(v_cs) /\ v_cs.fam # "N" => LET sp == SymPart(Text(v_cs)) IN
                  /\ Cardinality(Readings(sp)) <= 1
                  /\ AlgoResolve(sp) = Readings(sp)
 \* every admissible prefix o unit and every bare symbol resolves to itself
-SelfResolving == cs.fam = "L" /\ cs.kind = "plain" /\ Admissible(cs.p, cs.u) =>
-                 LET o == IdealAtom(Text(cs)) IN o.cls = "unit" /\ o.p = cs.p /\ o.u = cs.u /\ o.e = QOne
+SelfResolving == v_cs.fam = "L" /\ v_cs.kind = "plain" /\ Admissible(v_cs.p, v_cs.u) =>
+                 LET o == IdealAtom(Text(v_cs)) IN o.cls = "unit" /\ o.p = v_cs.p /\ o.u = v_cs.u /\ o.e = QOne
 TablesClean == SymbolsClean
 
 UName(o) == IF o.cls = "unit" /\ o.u > 0 THEN Units[o.u].name ELSE IF o.cls = "sys" /\ o.u > 0 THEN SysUnits[o.u].name ELSE ""
@@ -115,5 +114,5 @@ Record(x) ==
    refines |-> (i.cls = "unspecified" \/ SameOutcome(i, m)), tags |-> Tags(x),
    known |-> Tags(x) \cap KnownDevs # {}]
 
-EmitInv == IsLeaf(cs) /\ Emit => PrintT(ToJson(Record(cs)))
+EmitInv == IsLeaf(v_cs) /\ Emit => PrintT(ToJson(Record(v_cs)))
 =============================================================================
